@@ -258,6 +258,10 @@ Table == {
   Occ(208, "file/exists", {4}, "file.move"), Occ(209, "file/exists", {31}, "alias.make"),
   Occ(207, "file.rename/exists", {3}, "file.rename"),
   One(112, "new/chat", {11}, "chat.open"),
+  (* set-comment with an empty / a one-byte comment field on targets that have a stored comment (file.txt and Folder
+     carry one in every world): clearing a comment is setting it *)
+  One(207, "file.comment/empty", {28}, "file.comment"), One(207, "file.comment/one", {28}, "file.comment"),
+  One(207, "folder.comment/empty", {29}, "folder.comment"), One(207, "folder.comment/one", {29}, "folder.comment"),
   (* uploads whose transfer is opened: into the existing Uploads folder, into missing folders *)
   Xfer(One(203, "uploads+xfer", {1}, "upload.file")), Xfer(One(203, "missingupload+xfer", {1}, "upload.file")),
   Xfer(One(203, "missingdropbox+xfer", {1}, "upload.file")),
